@@ -19,7 +19,9 @@ const RULE: &str = "positive cases = (generated archive with any interleaving, c
 in the archive, sink schedule accepting 1..n bytes per write with injected Interrupted): every chosen sink must receive exactly \
 the bytes get_file(name) returns, sinks for absent names nothing, and the call returns Ok. Negative cases = archives encoded by \
 refimpl from the same block stream with the end-of-data marker removed, or cut in the middle of a record, with a valid index \
-appended (so the archive opens): linear_extract must return Err. Non-trivial = interleaved archive with a proper non-empty \
+appended (so the archive opens): linear_extract must return Err. Production flavour only: (mlar-linear) archives of 2..1100 \
+files written with the library, every file in 2..3 blocks interleaved round by round or in generated order, extracted with \
+`mlar extract` (no file argument = linear path with mlar's own destination-file pool): every file must hold its bytes. Non-trivial = interleaved archive with a proper non-empty \
 subset, or any negative case; distinct = hash of (program ops, subset, schedule, variant)";
 
 #[derive(Clone, Debug, Serialize, Deserialize)]
@@ -179,14 +181,95 @@ fn case() -> impl Strategy<Value = Case> {
         })
 }
 
+// ------------------------------------------------------------ linear extraction as `mlar extract` performs it
+
+/// `mlar extract` without file arguments is the linear path with mlar's own sinks (a pool of open destination files).
+/// The archives are written with the library: interleaved, with more files open at once than any pool holds.
+#[derive(Clone, Debug, Serialize, Deserialize)]
+pub struct MlarCase {
+    pub nfiles: u16,
+    /// blocks per file (each file gets `rounds` blocks, written round by round over all files or in generated order)
+    pub rounds: u8,
+    pub shuffled: bool,
+    pub compress: bool,
+    pub seed: u16,
+}
+
+fn mlar_case() -> impl Strategy<Value = MlarCase> {
+    (prop_oneof![2 => 2u16..40, 1 => 40u16..600, 2 => 1001u16..1100], 2u8..=3, any::<bool>(), any::<bool>(), any::<u16>())
+        .prop_map(|(nfiles, rounds, shuffled, compress, seed)| MlarCase { nfiles, rounds, shuffled, compress, seed })
+}
+
+fn mlar_linear(c: &MlarCase, st: &mut Stats) -> Result<(), String> {
+    use crate::cli::{self, Scratch};
+    st.eval(1);
+    let s = Scratch::new("c12");
+    let n = c.nfiles as usize;
+    let names: Vec<String> = (0..n).map(|i| format!("d{}/file{i:04}.bin", i % 7)).collect();
+    let mut model: Vec<Vec<u8>> = vec![Vec::new(); n];
+    {
+        let f = std::fs::File::create(s.join("a.mla")).map_err(|e| format!("HARNESS: {e}"))?;
+        let cfg = prog::writer_config_via((c.seed % 8) as u8, if c.compress { 2 } else { 0 }, 1, &[]);
+        let mut w = mla::ArchiveWriter::from_config(std::io::BufWriter::new(f), cfg).map_err(|e| format!("HARNESS: {e:?}"))?;
+        let ids: Vec<u64> = names.iter().map(|nm| w.start_file(nm)).collect::<Result<_, _>>().map_err(|e| format!("HARNESS: start_file: {e:?}"))?;
+        for r in 0..c.rounds as usize {
+            let mut order: Vec<usize> = (0..n).collect();
+            if c.shuffled {
+                order.sort_by_key(|&i| util::mix(c.seed as u64, "c12-order", ((r as u64) << 32) | i as u64));
+            }
+            for i in order {
+                let piece = format!("[block {r} of file {i:04} seed {}]", c.seed).into_bytes();
+                w.append_file_content(ids[i], piece.len() as u64, piece.as_slice()).map_err(|e| format!("HARNESS: append: {e:?}"))?;
+                model[i].extend_from_slice(&piece);
+            }
+        }
+        for id in ids {
+            w.end_file(id).map_err(|e| format!("HARNESS: end_file: {e:?}"))?;
+        }
+        w.finalize().map_err(|e| format!("HARNESS: finalize: {e:?}"))?;
+    }
+    let o = cli::mlar_s(&["extract", "-i", "a.mla", "-o", "out"], &s.path).map_err(|e| format!("HARNESS: cannot run mlar: {e}"))?;
+    if !o.status.success() {
+        return Err(format!("`mlar extract` of an archive of {n} interleaved files failed: {}", cli::describe(&o)));
+    }
+    for (i, nm) in names.iter().enumerate() {
+        match std::fs::read(s.join("out").join(nm)) {
+            Ok(d) if d == model[i] => {}
+            Ok(d) => {
+                return Err(format!(
+                    "`mlar extract` (linear) of an archive of {n} files, {} blocks each, interleaved: {nm} has {} bytes starting {:?}, reading the file individually gives {} bytes starting {:?}",
+                    c.rounds, d.len(), String::from_utf8_lossy(&d[..d.len().min(24)]), model[i].len(), String::from_utf8_lossy(&model[i][..24.min(model[i].len())])
+                ))
+            }
+            Err(e) => return Err(format!("`mlar extract` (linear) did not produce {nm}: {e}")),
+        }
+    }
+    st.label(format!("mlar-linear:files={}", if n > 1000 { ">1000" } else if n >= 40 { "40..600" } else { "<40" }));
+    st.nontrivial(util::hash64(format!("mlar|{c:?}").as_bytes()));
+    st.sample(|| json!({"family": "mlar-linear", "files": n, "blocks_per_file": c.rounds, "shuffled": c.shuffled, "compress": c.compress}));
+    Ok(())
+}
+
 fn run(ctx: &Ctx) -> Report {
     let mut rep = Report::new(RULE);
+    rep.assume(&prog::budget_note());
     rep.assume("negative archives are produced by refimpl (end marker removed / record area cut, original index appended); archives with >= 254 files are skipped there because the first index byte would itself read as a marker");
     explore(&mut rep, ctx, "extract", if SCALED { ctx.n(12_000, 300_000) } else { ctx.n(200, 4_000) }, case, oracle);
+    if !SCALED {
+        if std::path::Path::new(&crate::cli::mlar_path()).exists() {
+            explore(&mut rep, ctx, "mlar-linear", ctx.n(30, 300), mlar_case, mlar_linear);
+        } else {
+            rep.inconclusive = Some("mlar binary missing".into());
+        }
+    }
     rep
 }
 
 fn replay(_ctx: &Ctx, _stage: &str, case: &Value) -> Result<(), String> {
+    if _stage == "mlar-linear" {
+        let c: MlarCase = serde_json::from_value(case.clone()).map_err(|e| format!("HARNESS: bad replay case: {e}"))?;
+        return mlar_linear(&c, &mut Stats::default());
+    }
     let c: Case = serde_json::from_value(case.clone()).map_err(|e| format!("HARNESS: bad replay case: {e}"))?;
     oracle(&c, &mut Stats::default())
 }
